@@ -8,7 +8,7 @@ from ..families import stream as fam
 FAMILY = GFamily("stream/StreamGraph", "stream/StreamTrace", "harness.families.stream:make", hint=fam.Hint(),
                  fmt="hash", clause_map={"InOrderExactlyOnce": "InOrderExactlyOnceT", "Bounded": "BoundedT",
                              "ValidHold": "ValidHoldT", "Progress": "BoundedProgress",
-                             "ProgressSink": "BoundedProgress", "NothingLost": "BoundedDelivery"},
+                             "ProgressSink": "BoundedProgressSink", "NothingLost": "BoundedDelivery"},
                  describe=lambda s: "%s%s" % (s["cls"], s.get("args", s.get("stages", ""))))
 
 CLAUSES = {
@@ -17,7 +17,7 @@ CLAUSES = {
 }
 TCLAUSES = {
     "C03": ["InOrderExactlyOnceT", "BoundedT", "BoundedDelivery"],
-    "C04": ["ValidHoldT", "BoundedProgress"],
+    "C04": ["ValidHoldT", "BoundedProgress", "BoundedProgressSink"],
 }
 
 
